@@ -122,9 +122,12 @@ pub fn run_corpus(
                 // it - rustc or the derive itself - the property's domain has shrunk
                 let plain = items.iter().find(|i| i.spec.name == en).map(|i| vmodel::plain::is_plain(&i.spec)).unwrap_or(false);
                 let release_only = *profile == "rel" && failed_in_dev.as_ref().map_or(false, |d| !d.contains(&en));
+                // a derive that PANICS on a program the unchanged tree compiles has not tightened its validation
+                // (that would be a diagnostic of its own): the program cannot be rendered / parsed / iterated at all
+                let derive_panicked = errs.iter().any(|e| e.tag.as_deref() == Some("def") && (e.message.contains("proc-macro derive panicked") || e.rendered.contains("proc-macro derive panicked")));
                 let is_violation = match plan.policy {
                     Policy::AllErrors => true,
-                    Policy::TaggedOnly => errs.iter().all(mine) || broken_expansion || plain || release_only,
+                    Policy::TaggedOnly => errs.iter().all(mine) || broken_expansion || plain || release_only || derive_panicked,
                 };
                 if removed.insert(en.clone()) {
                     progress = true;
@@ -136,6 +139,8 @@ pub fn run_corpus(
                     out.violations.push(Violation {
                         kind: if broken_expansion && !errs.iter().all(mine) {
                             "compile:generated-code-rejected-by-rustc".to_string()
+                        } else if derive_panicked && !plain {
+                            "compile:derive-panicked".to_string()
                         } else if !errs.iter().all(mine) && release_only && !plain {
                             "compile:fails-only-in-the-release-build".to_string()
                         } else if !errs.iter().all(mine) {
@@ -149,7 +154,30 @@ pub fn run_corpus(
                         profile: profile.to_string(),
                     });
                 } else {
-                    out.removed.push((en.clone(), first.message.clone()));
+                    // C17: the derive rejected the program with a diagnostic of its own. If what is left of the enum
+                    // when everything but its interpolating literals is taken away is rejected too, the derive
+                    // refuses a literal that format! accepts - which the statement says it renders like format!
+                    let mut literal_rejected = false;
+                    if id == "C17" {
+                        if let Some(core) = items.iter().find(|i| i.spec.name == en).and_then(|i| vmodel::plain::format_core(&i.spec)) {
+                            let tn = core.type_name();
+                            let eo = vmodel::emit::enum_opts(&core, &tn);
+                            let item = (en.clone(), core.derives.clone(), vmodel::emit::enum_item(&core, &eo));
+                            if inproc::accepted_by_macros(env, id, &[item]).get(&en) == Some(&false) {
+                                literal_rejected = true;
+                                out.violations.push(Violation {
+                                    kind: "compile:C17:literal-format-accepts-rejected-by-derive".to_string(),
+                                    enum_name: en.clone(),
+                                    spec: Some(core),
+                                    detail: json!({"message": first.message, "rendered": first.rendered, "line": first.line}),
+                                    profile: profile.to_string(),
+                                });
+                            }
+                        }
+                    }
+                    if !literal_rejected {
+                        out.removed.push((en.clone(), first.message.clone()));
+                    }
                 }
             }
             if !progress || iter >= 5 {
